@@ -498,9 +498,72 @@ def _alias_pool():
 POOLS = {"data": _data_pool, "ser": _ser_pool, "union": _union_pool, "alias": _alias_pool}
 
 
+def random_spec(seed: int, i: int, depth: int = 3) -> Sp:
+    """a composite program drawn pseudo-randomly from the grammar (deterministic in seed, i)"""
+    import random
+
+    rnd = random.Random(seed * 1000003 + i)
+    names = iter(f"R{i}_{n}" for n in range(100))
+
+    def leaf():
+        k = rnd.choice(sorted(LEAVES))
+        s = LEAVES[k]
+        return s, k in HASHABLE
+
+    def gen(d):
+        if d <= 0 or rnd.random() < 0.25:
+            return leaf()
+        w = rnd.choice(["opt", "list", "seq", "vtuple", "map", "tuple", "union", "set", "fset", "obj", "list_c", "td"])
+        if w in ("set", "fset"):
+            s, h = leaf()
+            while not h:
+                s, h = leaf()
+            return (st(s) if w == "set" else fset(s)), w == "fset"
+        if w == "opt":
+            s, _ = gen(d - 1)
+            return (s if s.k in ("opt", "none", "any") else opt(s)), False
+        if w == "union":
+            a, _ = leaf()
+            b, _ = gen(d - 1)
+            return (union(a, b) if a != b and b.k not in ("any",) else b), False
+        if w == "tuple":
+            return tup(gen(d - 1)[0], leaf()[0]), False
+        if w == "map":
+            return mp(gen(d - 1)[0]), False
+        if w == "list_c":
+            return ann(lst(gen(d - 1)[0]), min_items=rnd.choice([0, 1]), max_items=2), False
+        if w in ("obj", "td"):
+            n = rnd.randint(1, 3)
+            fields = []
+            for j in range(n):
+                fs, _ = gen(d - 1)
+                fields.append(F(f"f{j}", fs))
+            if w == "td":
+                return obj(next(names), *fields, kind="typeddict", total=rnd.random() < 0.6), False
+            # defaulted optional field last keeps dataclass ordering legal
+            fields.append(F("g", opt(INT), default=V("None"), alias=rnd.choice([None, "G"])))
+            return obj(next(names), *fields), False
+        s, _ = gen(d - 1)
+        return {"list": lst, "seq": seq, "vtuple": vtuple}[w](s), False
+
+    return gen(depth)[0]
+
+
+def random_ids(seed: int, n: int) -> List[str]:
+    return [f"rnd:{seed}:{i}" for i in range(n)]
+
+
 def get(pool: str, pid: str) -> Tuple[Sp, str]:
+    if pid.startswith("rnd:"):
+        _, seed, i = pid.split(":")
+        return _uniq_names(random_spec(int(seed), int(i))), ""
     s, src, _ = POOLS[pool]()[pid]
     return s, src
+
+
+def _uniq_names(s: Sp) -> Sp:
+    """leaves of LEAVES share named definitions (E, Nt, ...): identical, so no clash"""
+    return s
 
 
 def ids(pool: str, tier: str) -> List[str]:
